@@ -33,6 +33,7 @@ Section Schnorr.
   Variable gid : G.
   Variable smul : Z -> G -> G.              (* scalar multiplication, scalars >= 0 *)
   Variable B : G.                           (* base point *)
+  Variable smulB : Z -> G.                  (* fixed-base scalar multiplication (scalarmult_base) *)
   Variable L : Z.                           (* its order *)
   Variable enc : G -> list Z.               (* 32-byte encoding *)
   Variable dec : list Z -> option G.
@@ -55,19 +56,21 @@ Section Schnorr.
     gl_smul_id : forall k, 0 <= k -> geq (smul k gid) gid;
     gl_smul_add : forall a b P, 0 <= a -> 0 <= b -> geq (smul (a + b) P) (gop (smul a P) (smul b P));
     gl_smul_mul : forall a b P, 0 <= a -> 0 <= b -> geq (smul (a * b) P) (smul a (smul b P));
-    gl_order : 0 < L /\ geq (smul L B) gid;     (* B generates a subgroup of order (dividing) L *)
+    gl_smulB : forall k, 0 <= k -> geq (smulB k) (smul k B);
+    gl_L : 0 < L <= 2 ^ 256;
+    gl_order : geq (smul L B) gid;              (* B generates a subgroup of order (dividing) L *)
     gl_enc_len : forall P, length (enc P) = 32%nat;
     gl_dec_enc : forall P, exists P', dec (enc P) = Some P' /\ geq P' P
   }.
 
   (* public key of the secret scalar a *)
-  Definition pk_of (a : Z) : list Z := enc (smul a B).
+  Definition pk_of (a : Z) : list Z := enc (smulB a).
 
-  (* RFC 8032 5.1.6 with secret scalar [a] and nonce prefix [prefix] *)
-  Definition sign_core (a : Z) (prefix : list Z) (m : list Z) : list Z :=
+  (* RFC 8032 5.1.6 with secret scalar [a], its public key bytes [A] and nonce
+     prefix [prefix] (cryptoxide: signature(message, keypair) reads A from the keypair) *)
+  Definition sign_core (a : Z) (A : list Z) (prefix : list Z) (m : list Z) : list Z :=
     let r := hashZ (prefix ++ m) mod L in
-    let Rb := enc (smul r B) in
-    let A := pk_of a in
+    let Rb := enc (smulB r) in
     let k := hashZ (Rb ++ A ++ m) mod L in
     let S := (r + k * a) mod L in
     Rb ++ le_bytes 32 S.
@@ -83,7 +86,7 @@ Section Schnorr.
         if L <=? S then false
         else
           let k := hashZ (Rb ++ pk ++ m) mod L in
-          list_eqb Z.eqb (enc (gop (smul S B) (gneg (smul k A)))) Rb
+          list_eqb Z.eqb (enc (gop (smulB S) (gneg (smul k A)))) Rb
     end.
 End Schnorr.
 
@@ -96,12 +99,21 @@ Definition sqrtm1 : Z := 1968116137670750595680707930498854201544606651592389016
 Definition Bx : Z := 15112221349535400772501151409588531511454012693041857206046113283949847762202.
 Definition By : Z := 46316835694926478169428394003475163141307993866256225615783033603165251855960.
 
-Definition fmul (a b : Z) : Z := (a * b) mod p25519.
+(* reduction mod p = 2^255 - 19 for x >= 0: 2^255 = 19 (mod p), twice, then one
+   conditional subtraction.  [fred x = x mod p] for 0 <= x < 2^520 is proved in
+   Ed25519Proofs.v ([fred_spec]); Z.modulo itself is ~17x slower under vm_compute. *)
+Definition m255 : Z := 2 ^ 255 - 1.
+Definition red1 (x : Z) : Z := Z.land x m255 + 19 * Z.shiftr x 255.
+Definition fred (x : Z) : Z :=
+  let y := red1 (red1 x) in if p25519 <=? y then y - p25519 else y.
+Definition fmul (a b : Z) : Z := fred (a * b).          (* operands >= 0 *)
+Definition fsqr (a : Z) : Z := fred (Z.square a).
+Definition fsub (a b : Z) : Z := a + p25519 - b.        (* b canonical: stays >= 0, unreduced *)
 Fixpoint fpow_pos (b : Z) (e : positive) : Z :=
   match e with
-  | xH => b mod p25519
-  | xO e' => let h := fpow_pos b e' in fmul h h
-  | xI e' => let h := fpow_pos b e' in fmul (fmul h h) b
+  | xH => fred b
+  | xO e' => fsqr (fpow_pos b e')
+  | xI e' => fmul (fsqr (fpow_pos b e')) b
   end.
 Definition fpow (b e : Z) : Z := match e with Zpos e' => fpow_pos b e' | _ => 1 end.
 Definition finv (a : Z) : Z := fpow a (p25519 - 2).
@@ -111,30 +123,31 @@ Definition point : Type := (Z * Z * Z * Z)%type.
 Definition pid : point := (0, 1, 1, 0).
 Definition Bpt : point := (Bx, By, 1, fmul Bx By).
 
-(* RFC 8032 section 5.1.4; sums and differences are left unreduced, every product is reduced *)
+(* RFC 8032 section 5.1.4.  Coordinates are canonical (< p); sums are left
+   unreduced, a difference a - b is computed as a + p - b >= 0, every product is reduced. *)
 Definition padd (P Q : point) : point :=
   let '(X1, Y1, Z1, T1) := P in
   let '(X2, Y2, Z2, T2) := Q in
-  let A := fmul (Y1 - X1) (Y2 - X2) in
+  let A := fmul (fsub Y1 X1) (fsub Y2 X2) in
   let B := fmul (Y1 + X1) (Y2 + X2) in
   let C := fmul (fmul T1 (2 * d25519)) T2 in
   let D := fmul Z1 (2 * Z2) in
-  let E := B - A in let F := D - C in let G := D + C in let H := B + A in
+  let E := fsub B A in let F := fsub D C in let G := D + C in let H := B + A in
   (fmul E F, fmul G H, fmul F G, fmul E H).
 
 Definition pdbl (P : point) : point :=
   let '(X1, Y1, Z1, _) := P in
-  let A := fmul X1 X1 in
-  let B := fmul Y1 Y1 in
-  let C := 2 * fmul Z1 Z1 in
+  let A := fsqr X1 in
+  let B := fsqr Y1 in
+  let C := 2 * fsqr Z1 in
   let H := A + B in
-  let E := H - fmul (X1 + Y1) (X1 + Y1) in
-  let G := A - B in
+  let E := fsub H (fsqr (X1 + Y1)) in
+  let G := fsub A B in
   let F := C + G in
   (fmul E F, fmul G H, fmul F G, fmul E H).
 
 Definition pneg (P : point) : point :=
-  let '(X, Y, Z, T) := P in ((- X) mod p25519, Y, Z, (- T) mod p25519).
+  let '(X, Y, Z, T) := P in (fred (fsub 0 X), Y, Z, fred (fsub 0 T)).
 
 (* same point of the curve: cross-multiplied affine coordinates agree *)
 Definition peq (P Q : point) : Prop :=
@@ -152,6 +165,27 @@ Fixpoint psmul_pos (k : positive) (P : point) : point :=
 Definition psmul (k : Z) (P : point) : point :=
   match k with Zpos k' => psmul_pos k' P | _ => pid end.
 
+(* fixed-base multiplication from the table B, 2B, 4B, ..., 2^255 B (computed
+   once, when this file is compiled): one addition per set bit, no doubling *)
+Fixpoint pow2_table (n : nat) (P : point) : list point :=
+  match n with O => [] | S n' => P :: pow2_table n' (pdbl P) end.
+Definition Btable : list point := Eval vm_compute in pow2_table 256 Bpt.
+Fixpoint psmul_tab (k : positive) (tab : list point) (acc : point) : point :=
+  match tab with
+  | [] => acc
+  | T :: tab' =>
+      match k with
+      | xH => padd acc T
+      | xO k' => psmul_tab k' tab' acc
+      | xI k' => psmul_tab k' tab' (padd acc T)
+      end
+  end.
+Definition psmul_base (k : Z) : point :=
+  match k with
+  | Zpos k' => if k <? 2 ^ 256 then psmul_tab k' Btable pid else psmul_pos k' Bpt
+  | _ => pid
+  end.
+
 (* 5.1.2 encoding: y little-endian, bit 255 = lsb of x; one inversion *)
 Definition compress (P : point) : list Z :=
   let '(X, Y, Z, _) := P in
@@ -166,21 +200,21 @@ Definition compress (P : point) : list Z :=
 Definition recover_xy (s : list Z) : option (Z * Z) :=
   let v := le_int s in
   let sign := v / 2 ^ 255 in
-  let y := (v mod 2 ^ 255) mod p25519 in
-  let y2 := fmul y y in
-  let u := (y2 - 1) mod p25519 in
-  let w := (fmul d25519 y2 + 1) mod p25519 in
-  let w3 := fmul (fmul w w) w in
-  let w7 := fmul (fmul w3 w3) w in
+  let y := fred (v mod 2 ^ 255) in
+  let y2 := fsqr y in
+  let u := fred (fsub y2 1) in
+  let w := fred (fmul d25519 y2 + 1) in
+  let w3 := fmul (fsqr w) w in
+  let w7 := fmul (fsqr w3) w in
   let x := fmul (fmul u w3) (fpow (fmul u w7) ((p25519 - 5) / 8)) in
-  let wxx := fmul w (fmul x x) in
+  let wxx := fmul w (fsqr x) in
   let ox : option Z :=
     if wxx =? u then Some x
-    else if wxx =? (- u) mod p25519 then Some (fmul x sqrtm1)
+    else if wxx =? fred (fsub 0 u) then Some (fmul x sqrtm1)
     else None in
   match ox with
   | None => None
-  | Some x => Some (if x mod 2 =? sign then x else (p25519 - x) mod p25519, y)
+  | Some x => Some (if x mod 2 =? sign then x else fred (fsub 0 x), y)
   end.
 
 Definition decompress_lenient (s : list Z) : option point :=
@@ -226,29 +260,31 @@ Definition ext_from_bytes (k : list Z) : outcome (list Z) :=
 Definition extended_secret (sk : list Z) : list Z :=
   let h := sha512 sk in clamp (firstn 32 h) ++ skipn 32 h.
 
-Definition ed_pk_of (a : Z) : list Z := pk_of point psmul Bpt compress a.
-Definition ed_sign_core (a : Z) (prefix m : list Z) : list Z :=
-  sign_core point psmul Bpt Lord compress sha512Z a prefix m.
+Definition ed_pk_of (a : Z) : list Z := pk_of point psmul_base compress a.
+Definition ed_sign_core (a : Z) (A prefix m : list Z) : list Z :=
+  sign_core point psmul_base Lord compress sha512Z a A prefix m.
 
 (* SecretKey::public_key / SecretKey::sign *)
 Definition ed_public (sk : list Z) : list Z :=
   ed_pk_of (le_int (firstn 32 (extended_secret sk))).
-Definition ed_sign (sk m : list Z) : list Z :=
-  let az := extended_secret sk in ed_sign_core (le_int (firstn 32 az)) (skipn 32 az) m.
+Definition ed_sign_with (sk pk m : list Z) : list Z :=      (* ed25519::signature(m, sk || pk) *)
+  let az := extended_secret sk in ed_sign_core (le_int (firstn 32 az)) pk (skipn 32 az) m.
+Definition ed_sign (sk m : list Z) : list Z := ed_sign_with sk (ed_public sk) m.
 (* SecretKeyExtended::public_key / sign: the first 32 bytes are the scalar as they are *)
 Definition ed_public_ext (esk : list Z) : list Z := ed_pk_of (le_int (firstn 32 esk)).
-Definition ed_sign_ext (esk m : list Z) : list Z :=
-  ed_sign_core (le_int (firstn 32 esk)) (skipn 32 esk) m.
+Definition ed_sign_ext_with (esk pk m : list Z) : list Z :=
+  ed_sign_core (le_int (firstn 32 esk)) pk (skipn 32 esk) m.
+Definition ed_sign_ext (esk m : list Z) : list Z := ed_sign_ext_with esk (ed_public_ext esk) m.
 
 (* PublicKey::verify = cryptoxide::ed25519::verify: lenient point decoding,
    canonical S, all-zero public key rejected, byte comparison of R *)
 Definition ed_verify (pk m sig : list Z) : bool :=
   if all_zero pk then false
-  else verify_core point padd pneg psmul Bpt Lord compress decompress_lenient sha512Z pk m sig.
+  else verify_core point padd pneg psmul psmul_base Lord compress decompress_lenient sha512Z pk m sig.
 
 (* the RFC 8032 verifier (strict decoding, no extra rejection) *)
 Definition rfc_verify (pk m sig : list Z) : bool :=
-  verify_core point padd pneg psmul Bpt Lord compress decompress_rfc sha512Z pk m sig.
+  verify_core point padd pneg psmul psmul_base Lord compress decompress_rfc sha512Z pk m sig.
 
 (* a public key whose decoding RFC 8032 and cryptoxide treat alike *)
 Definition canonical_pk (pk : list Z) : Prop :=
